@@ -695,6 +695,32 @@ func (sc *specCtx) evalCall(e *CallE) Val {
 		a := args(2)
 		sc.want(a[0], SStr, e)
 		return boolVal(app("str_lt", a[0].T, a[1].T))
+	case "fieldaddr":
+		// fieldaddr(x, f): the address &x.f as passed to methods of the field's type
+		if len(e.Args) != 2 {
+			specFail("fieldaddr(x, field)")
+		}
+		id, ok := e.Args[1].(*Ident)
+		if !ok {
+			specFail("fieldaddr(x, field): field name expected")
+		}
+		x := sc.eval(e.Args[0])
+		named, ok := derefNamed(x.GT)
+		if !ok {
+			specFail("fieldaddr: static type of %s unknown", e.Args[0])
+		}
+		rn := fieldRegion(named.Origin(), id.Name)
+		rid, has := sc.fc.e.regionIDs[rn]
+		if !has {
+			rid = len(sc.fc.e.regionIDs) + 1
+			sc.fc.e.regionIDs[rn] = rid
+		}
+		return Val{T: fmt.Sprintf("(addr_of %d %s)", rid, x.T), S: SU}
+	case "sconcat":
+		a := args(2)
+		sc.want(a[0], SStr, e)
+		sc.want(a[1], SStr, e)
+		return Val{T: app("str_concat", a[0].T, a[1].T), S: SStr}
 	case "runes":
 		a := args(1)
 		sc.want(a[0], SStr, e)
